@@ -149,9 +149,13 @@ def run_case(sc, opts):
         box["msgs"] = msgs
 
         A = sc["A"]
-        r = Receiver(br, max_async_tasks=A, max_prefetch=sc["P"], max_tasks_to_execute=sc["N"], run_startup=False,
-                     wait_tasks_timeout=None if sc.get("wtt_us") is None else sc["wtt_us"] / 1e6,
-                     ack_type=AcknowledgeType(sc["ack_type"]) if sc.get("ack_type") else None)
+        if sc.get("cli") is not None:
+            # configuration through the real command-line path (harness/cli_glue.py)
+            r = Receiver(br, run_startup=False, **box["cli_kw"])
+        else:
+            r = Receiver(br, max_async_tasks=A, max_prefetch=sc["P"], max_tasks_to_execute=sc["N"], run_startup=False,
+                         wait_tasks_timeout=None if sc.get("wtt_us") is None else sc["wtt_us"] / 1e6,
+                         ack_type=AcknowledgeType(sc["ack_type"]) if sc.get("ack_type") else None)
         shims.wrap_receiver(r, log, ident, A, sc["P"])
         ev = shims.make_event(log)
         if sc.get("stop_us") is not None:
@@ -168,6 +172,12 @@ def run_case(sc, opts):
         box["n"] = len(log.ev)      # what follows is the harness' own clean-up (cancelling left-over tasks)
         return log
 
+    if sc.get("cli") is not None:
+        import cli_glue
+        from taskiq import InMemoryBroker
+        # before the virtual loop exists: start_listen runs its own (throw-away) loop; the keyword arguments it
+        # hands to the receiver type do not depend on the broker object
+        box["cli_kw"] = cli_glue.receiver_kwargs_via_cli(sc["cli"], InMemoryBroker())
     try:
         log = vloop.run(main)
     finally:
